@@ -176,7 +176,7 @@ func hostsWithHelpers(fn *ssa.Function) ([]*ssa.Function, func()) {
 				continue
 			}
 			h := cl.Common().StaticCallee()
-			if h == nil || seen[h] || len(h.Blocks) == 0 || len(h.Blocks) > 8 || h.Pkg == nil || h.Pkg.Pkg == nil || h.Pkg != fn.Pkg {
+			if h == nil || seen[h] || len(h.Blocks) == 0 || len(h.Blocks) > 40 || h.Pkg == nil || h.Pkg.Pkg == nil || h.Pkg != fn.Pkg {
 				continue
 			}
 			seen[h] = true
@@ -189,4 +189,16 @@ func hostsWithHelpers(fn *ssa.Function) ([]*ssa.Function, func()) {
 			u()
 		}
 	}
+}
+
+// callInFn: the (first) call instruction of fn whose static callee is h.
+func callInFn(fn, h *ssa.Function) *ssa.Call {
+	for _, b := range fn.Blocks {
+		for _, in := range b.Instrs {
+			if cl, ok := in.(*ssa.Call); ok && cl.Common().StaticCallee() == h {
+				return cl
+			}
+		}
+	}
+	return nil
 }
